@@ -40,10 +40,20 @@ def _run_crc(F, R, name, width, poly, exit_check):
     fn = F.fn("sdcard::proto::" + name)
     I = Interp(F, mode="bv", max_paths=20000, max_steps=2000000)
     h, body, nb, nt, sw = _loop_parts(fn)
-    crc_locals = [i for i, l in enumerate(fn.locals) if l["name"] == "crc"]
-    if len(crc_locals) != 1:
-        raise KeyError("cannot identify the running-remainder variable `crc` in %s" % name)
-    cl = crc_locals[0]
+    # the running remainder: the integer local initialised before the loop, updated inside it and read after it
+    before = fn.reach([0], cut_blocks=[nb])
+    cands = []
+    for i, l in enumerate(fn.locals):
+        if l["ty"] not in ("u8", "u16", "u32") or i == 0:
+            continue
+        ds = fn.defs().get(i, [])
+        init = any(d[0] == "assign" and d[1] in before and d[1] not in body for d in ds)
+        upd = any(d[0] in ("assign", "call") and d[1] in body for d in ds)
+        if init and upd:
+            cands.append(i)
+    if len(cands) != 1:
+        raise KeyError("cannot identify the running-remainder variable in %s (candidates %s)" % (name, [fn.locals[i]["name"] for i in cands]))
+    cl = cands[0]
     cw = {"u8": 8, "u16": 16, "u32": 32}[fn.locals[cl]["ty"]]
     obligations = 0
     discharged = 0
